@@ -81,6 +81,22 @@ def _work(run_one, scen, seed, tf):
     import torch, numpy, random
     torch.set_num_threads(1)
     _limit_memory()
+    cov = None
+    if os.environ.get("VERIF_COVERAGE"):          # tools/coverage_map.sh: which lines of torchphysics do the drivers reach?
+        import coverage
+        cov = coverage.Coverage(data_file=os.path.join(os.environ["VERIF_COVERAGE"], ".coverage"), data_suffix=True,
+                                source=["/repo/src/torchphysics"], timid=False)
+        cov.start()
+    try:
+        _work_inner(run_one, scen, seed, tf)
+    finally:
+        if cov is not None:
+            cov.stop()
+            cov.save()
+
+
+def _work_inner(run_one, scen, seed, tf):
+    import torch, numpy, random
     out = []
     for s in scen:
         sd = (seed * 1000003 + s["tid"]) % (2 ** 31)
